@@ -1,6 +1,12 @@
 (* ---- C15: doc text stays inside comments ----
-   (c15 LANG ((POS (DOC ..)) ..) TEXT) -> the extracted verdict predicates of Spec/C15Spec.v on a generated file:
-     (known K) (reproduced B) (contained B) (good B) (unsafe (DOC ..)) (obs S)
+   (c15 LANG ((POS (DOC ..)) ..) TEXT MARK) -> the extracted verdict predicates of Spec/C15Spec.v on a generated file.
+   The DOCs are the doc strings of the positions as the front end carries them (lines); what must be found in TEXT is
+   each of them AS WRITTEN by the back end of LANG in the comment form of its position (Spec/C15Spec.v c15_site_written:
+   TypeScript and Python docstrings escape the terminator).  MARK = all: every written string is searched and marked;
+   MARK = sentinel: only the written strings containing the sentinel prefix Zq are marked (the others - short lines
+   such as a lone star or hash sign that also occur in code - are only required to occur).
+     (known K) (dom B) (reproduced B) (contained B) (good B) (unsafe (DOC ..)) (written (W ..)) (obs S)
+   dom: Spec dom_C15_ir (every doc string is c15_safe: always true of what the front end delivers).
    obs: one number per character of TEXT (as a string atom): 0 = not doc text, otherwise the lexer mode tag
    (+10 when the character is not comment text or ends its comment). *)
 open Drv_base
@@ -16,26 +22,36 @@ let to_c15_pos = function
   | A "alias" -> Model.C15alias
   | _ -> raise (Bad "c15 position")
 
+let c15_sentinel = to_str (A "s90.113")   (* Zq *)
+
 let c15 args =
   match args with
-  | [l; sites; text] ->
+  | [l; sites; text; mark] ->
     let l = to_c15_lang l in
     let sites = to_list (function L [p; ds] -> (to_c15_pos p, to_list to_str ds) | _ -> raise (Bad "c15 site")) sites in
     let text = to_str text in
-    let docs = List.concat_map snd sites in
+    let written = List.concat_map (Model.c15_site_written l) sites in
+    let marked = match mark with
+      | A "all" -> written
+      | A "sentinel" -> List.filter (fun w -> Model.contains_sub c15_sentinel w) written
+      | _ -> raise (Bad "c15 mark") in
     let unsafe = List.concat_map (fun (p, ds) -> List.filter (fun d -> not (Model.c15_safe l (Model.c15_docstring_at p) d)) ds) sites in
+    let reproduced = Model.c15_reproduced written text in
+    let contained = Model.c15_contained_in l marked text in
     L [ L [A "known"; of_opt (fun c -> A (coqstring c)) (Model.known_C15 l sites)];
-        L [A "reproduced"; of_bool (Model.c15_reproduced docs text)];
-        L [A "contained"; of_bool (Model.c15_contained_in l docs text)];
-        L [A "good"; of_bool (Model.good_C15 l docs text)];
+        L [A "dom"; of_bool (Model.dom_C15_ir l sites)];
+        L [A "reproduced"; of_bool reproduced];
+        L [A "contained"; of_bool contained];
+        L [A "good"; of_bool (reproduced && contained)];
         L [A "unsafe"; of_list str_to_atom unsafe];
-        L [A "obs"; str_to_atom (Model.c15_obs l docs text)] ]
+        L [A "written"; of_list str_to_atom written];
+        L [A "obs"; str_to_atom (Model.c15_obs l marked text)] ]
   | _ -> raise (Bad "c15 args")
 
 let () = register "c15" c15
 
-(* (c15carried ((POS (VALUE ..)) ..)) -> ((POS (DOC ..)) ..): the doc strings the front end carries on the unchanged
-   tree for doc attributes with these values (Spec/C15Spec.v c15_carried_sites: str::trim of each value) *)
+(* (c15carried ((POS (VALUE ..)) ..)) -> ((POS (DOC ..)) ..): the doc strings the front end carries for doc attributes
+   with these values (Spec/C15Spec.v c15_carried_sites: per value the trimmed lines of the trimmed value) *)
 let c15carried args =
   match args with
   | [sites] ->
